@@ -280,6 +280,15 @@ def gen_stream(ctx, bp, si, s, old_of, rng):
                 m = msggen.gen_message(s, ci, rng, in_range=rng.random() < 0.93, p_set=rng.choice([0.0, 0.3, 0.6]) if rng.random() < 0.6 else None)
                 if force == "unknown" and j <= 1:
                     m.parse(msggen.gen_unknown(rng, {f.number for f in s.classes[ci].fields}))
+                    if rng.random() < 0.5:
+                        # an unknown group holding a group (proto2 data relayed by an older reader): every tag byte counts
+                        # against the frame's size (seeded change C10-5)
+                        known = {f.number for f in s.classes[ci].fields}
+                        num = next(n for n in (19, 99, 3000, 70000) if n not in known)
+                        ev = msggen.enc_varint
+                        m.parse(ev((num << 3) | 3) + ev((2 << 3) | 3) + ev((1 << 3) | 0) + ev(rng.getrandbits(12))
+                                + ev((2 << 3) | 4) + ev((7 << 3) | 5) + bytes(4) + ev((num << 3) | 4))
+                        ctx.count("frame_with_nested_unknown_group")
         except Exception as e:  # noqa
             ctx.count("construct_error:" + type(e).__name__)
             continue
@@ -294,6 +303,23 @@ def gen_stream(ctx, bp, si, s, old_of, rng):
         written.append((ci, m, payload, lit))
         frames.append(frame)
         ctx.count("frame_empty" if not payload else "frame_nonempty")
+        if rng.random() < 0.3 and len(written) < 7:
+            # the SAME object written a second time after an in-place change (list append / dict store / assignment inside a
+            # child: nothing Message.__setattr__ sees) - the second frame's prefix must be the length of the second body
+            # (seeded change C10-4: a size remembered from the first dump)
+            import copy as _copy
+            try:
+                keep = _copy.deepcopy(m)
+                kind = msggen.mutate_in_place(s, ci, m, rng)
+            except Exception:  # noqa
+                kind = None
+            if kind:
+                written[-1] = (ci, keep, payload, lit)
+                w2 = write_message(bp, s, ci, m)
+                if w2 is not None and w2[0] != "unencodable":
+                    written.append((ci, m, w2[1], w2[2]))
+                    frames.append(w2[0])
+                    ctx.count("frame_same_object_rewritten:" + kind.split(":")[0])
         if object.__getattribute__(m, "_unknown_fields"):
             ctx.count("frame_with_unknown_fields")
         if msggen.depth_of(m) > 1:
@@ -314,7 +340,7 @@ def gen_stream(ctx, bp, si, s, old_of, rng):
 def gen_fault_stream(ctx, bp, si, s, rng):
     """frames whose payload or length prefix is wrong: the three size errors, faults inside a correct frame"""
     nuser = len(s.classes)
-    frames, readers, written = [], [], []
+    frames, readers, written, wellformed = [], [], [], []
     for _ in range(rng.randint(1, 3)):
         ci = rng.randrange(nuser)
         try:
@@ -323,6 +349,23 @@ def gen_fault_stream(ctx, bp, si, s, rng):
         except Exception:  # noqa
             continue
         r = rng.random()
+        if r < 0.2:
+            # NOT a fault: a correct frame whose payload carries raw unknown records the writer never parsed (groups holding
+            # groups included), as a relay or a newer writer produces them - every leading frame of this kind must be read
+            known = {f.number for f in s.classes[ci].fields}
+            ev = msggen.enc_varint
+            num = next(n for n in (19, 99, 3000, 70000) if n not in known)
+            nested = (ev((num << 3) | 3) + ev((2 << 3) | 3) + ev((1 << 3) | 0) + ev(rng.getrandbits(12)) + ev((2 << 3) | 3)
+                      + ev((2 << 3) | 4) + ev((2 << 3) | 4) + ev((7 << 3) | 5) + bytes(4) + ev((num << 3) | 4))
+            extra = msggen.gen_unknown(rng, known) + (nested if rng.random() < 0.7 else b"")
+            cut = rng.randint(0, 1) * len(payload)
+            payload2 = payload[:cut] + extra + payload[cut:]
+            frames.append(msggen.enc_varint(len(payload2)) + payload2)
+            readers.append(ci)
+            wellformed.append(True)
+            ctx.count("raw_unknown_spliced_frame")
+            continue
+        wellformed.append(False)
         if r < 0.35 and payload:
             kind, payload2 = rng.choice(wiregen.faults(payload, rng, budget=8))
             frame = msggen.enc_varint(len(payload2)) + payload2
@@ -342,6 +385,7 @@ def gen_fault_stream(ctx, bp, si, s, rng):
         frames.append(frame)
         readers.append(ci)
     case = Case("fault", si, s, written, frames, readers)
+    case.wellformed = wellformed
     return case
 
 
@@ -351,6 +395,30 @@ def check_fault_case(ctx, bp, case, pairs, meta):
     if any(ev[0] == "ok" and ev[1] is None for ev in events):
         return
     ctx.cov["evaluations"] += 1
+    # oracle: the leading frames that are correct frames around well-formed payloads are read, each exactly
+    lead = 0
+    for ok in getattr(case, "wellformed", []):
+        if not ok:
+            break
+        lead += 1
+    end = 0
+    for i in range(lead):
+        end += len(case.frames[i])
+        if i >= len(events) or events[i][0] != "ok":
+            what = "no load" if i >= len(events) else f"{type(events[i][1]).__name__}: {events[i][1]}"
+            ctx.fail("oracle", f"frame #{i} is complete and its payload is a well-formed record sequence (unknown records and nested groups spliced in), "
+                     f"but load raised ({what})", input=case.describe())
+            break
+        if len(stream) - events[i][2] != end:
+            ctx.fail("oracle", f"load #{i} stopped at offset {len(stream) - events[i][2]}, its frame ends at {end}", input=case.describe())
+            break
+        try:
+            n0, p0 = wiregen.read_varint(case.frames[i], 0)
+            want = snapshot(s, s.classes[readers[i]].py().parse(case.frames[i][p0:]))
+            if events[i][1] != want:
+                ctx.fail("oracle", f"load #{i} returned an object different from Cls().parse(payload)", input=case.describe())
+        except Exception:  # noqa
+            pass
     # oracle: a load that returns has consumed exactly prefix + announced size
     pos = 0
     for ev in events:
